@@ -231,37 +231,41 @@ def run(ctx, rep, model=None):
     for tag, (fn, term) in m.loaders.items():
         rep.analysed(fn)
 
-    # ------------------------------------------------------------------ R04.1
+    # ------------------------------------------------------------------ R04.1 (partial evaluation over the exact type)
+    from . import common as K
     fd = ctx.func(BR + ".dumpable")
     prm = A.params(fd.node)[0]
-    accepted = set()
-    containers = {}
+    gd = ctx.cfg(fd)
+    rep.analysed(fd, gd)
     isinst = [c for c in A.calls(fd.node) if A.call_name(c) in ("isinstance", "issubclass")]
-    for n in A.walk(fd.node):
-        if isinstance(n, ast.If):
-            tst = n.test
-            if isinstance(tst, ast.Compare) and len(tst.ops) == 1 and isinstance(tst.left, ast.Call) \
-                    and A.call_name(tst.left) == "type" and A.src(tst.left.args[0]) == prm:
-                ts = ctx.fold(tst.comparators[0], mod)
-                if isinstance(tst.ops[0], ast.In):
-                    ts = set(ts)
-                elif isinstance(tst.ops[0], ast.Is):
-                    ts = {ts}
-                else:
-                    raise AnalysisError("unsupported type test in dumpable: %s" % A.src(tst))
-                ret = n.body[0] if len(n.body) == 1 and isinstance(n.body[0], ast.Return) else None
-                if ret is None:
-                    raise AnalysisError("dumpable: type test without a direct return")
-                if isinstance(ret.value, ast.Constant) and ret.value.value is True:
-                    accepted |= ts
-                else:
-                    for x in ts:
-                        containers[x] = ret.value
-                    accepted |= ts
     keys = set(m.dumpers)
+
+    class _Foreign(object):
+        pass
+    universe = set(keys) | {list, dict, set, bytearray, object, type, _Foreign}
+    accepted = set()
+    verdicts = {}
+    for T in sorted(universe, key=lambda t: t.__name__):
+        dec = K.exact_type_decider(ctx, gd, prm, T)
+        ok_e = Q.valuation_edges(dec)
+        nodes = Q.reach_ef([gd.entry], lambda a, b, l: l != "exc" and ok_e(a, b, l))
+        rets = [n for n in nodes if n.kind == "stmt" and isinstance(n.ast, ast.Return)]
+        kinds = set()
+        for r in rets:
+            v = r.ast.value
+            if isinstance(v, ast.Constant) and v.value is True:
+                kinds.add("true")
+            elif isinstance(v, ast.Constant) and v.value is False:
+                kinds.add("false")
+            else:
+                kinds.add("expr")
+        verdicts[T] = (kinds, rets, nodes, ok_e)
+        if kinds - {"false"}:
+            accepted.add(T)
+    accepted_real = accepted - {_Foreign}
     ok = accepted == keys
     rep.ob("R04.1", "brine: dumpable() domain == dump registry keys", ok,
-           "%d exact types on both sides" % len(keys) if ok else
+           "%d exact types on both sides; every other type is refused" % len(keys) if ok else
            "dumpable() accepts %s but the dump registry has %s: only-in-predicate %s (declared serializable, dump raises), "
            "only-in-registry %s (serializable values sent by reference)" % (
                sorted(x.__name__ for x in accepted), sorted(x.__name__ for x in keys),
@@ -272,28 +276,56 @@ def run(ctx, rep, model=None):
            "no isinstance/issubclass in dumpable()" if not isinst else
            "dumpable() uses isinstance: instances of subclasses (enum members, named tuples, bool-likes) are declared "
            "serializable and would be sent by value / fail to dump", ctx.loc(isinst[0]) if isinst else fd.loc, kind="site")
-    for ct, expr in containers.items():
-        s = A.src(expr)
-        if ct in (tuple, frozenset):
-            okc = isinstance(expr, ast.Call) and A.call_name(expr) == "all" and len(expr.args) == 1 and \
-                isinstance(expr.args[0], ast.GeneratorExp) and A.call_name(expr.args[0].elt) == "dumpable" and \
-                A.src(expr.args[0].generators[0].iter) == prm and not expr.args[0].generators[0].ifs
-        elif ct is slice:
-            parts = set()
-            for c in A.find_calls(expr, "dumpable"):
-                parts.add(A.src(c.args[0]))
-            conj = isinstance(expr, ast.BoolOp) and isinstance(expr.op, ast.And)
-            okc = conj and parts == {"%s.start" % prm, "%s.stop" % prm, "%s.step" % prm}
-        else:
-            okc = False
+    simple = {type(None), int, bool, float, bytes, str, complex, type(NotImplemented), type(Ellipsis)}
+    for T in sorted(keys & simple, key=lambda t: t.__name__):
+        kinds = verdicts[T][0]
+        rep.ob("R04.1", "brine.dumpable: a %s is always serializable" % T.__name__, kinds == {"true"},
+               "only `return True` is reachable" if kinds == {"true"} else "for %s dumpable() can answer %s" % (T.__name__, sorted(kinds)),
+               fd.loc, kind="table", nontrivial=False)
+
+    def must_pass_positive(T, call_src):
+        """every path (under type T) to a non-False return passes the positive edge of a test `dumpable(<call_src>)`,
+        or the return value itself contains that call"""
+        kinds, rets, nodes, ok_e = verdicts[T]
+        tests = {n.id for n in nodes if n.kind == "test" and any(
+            A.call_name(c) == "dumpable" and c.args and A.src(c.args[0]) == call_src for c in A.calls(n.ast))}
+        for r in rets:
+            v = r.ast.value
+            if isinstance(v, ast.Constant) and v.value is False:
+                continue
+            if any(A.call_name(c) == "dumpable" and c.args and A.src(c.args[0]) == call_src for c in A.calls(v)) and not any(
+                    isinstance(x, ast.BoolOp) and isinstance(x.op, ast.Or) for x in A.walk(v)):
+                continue
+            # paths that avoid the *positive* edge: remove positive edges and see whether r is still reachable
+            p = Q.find_path_ef(gd.entry, lambda x: x is r,
+                               lambda a, b, l: l != "exc" and ok_e(a, b, l) and not (a.id in tests and l == "true"))
+            if p is not None:
+                return False
+        return True
+    for ct in sorted(keys & {tuple, frozenset}, key=lambda t: t.__name__):
+        kinds, rets, nodes, ok_e = verdicts[ct]
+        okc = False
+        for r in rets:
+            v = r.ast.value
+            if isinstance(v, ast.Call) and A.call_name(v) == "all" and len(v.args) == 1 and \
+                    isinstance(v.args[0], (ast.GeneratorExp, ast.ListComp)) and A.call_name(v.args[0].elt) == "dumpable" and \
+                    A.src(v.args[0].generators[0].iter) == prm and not v.args[0].generators[0].ifs and \
+                    A.src(v.args[0].elt.args[0]) == A.src(v.args[0].generators[0].target):
+                okc = True
+        okc = okc and "true" not in kinds
         rep.ob("R04.1", "brine.dumpable: a %s is accepted only if all its parts are" % ct.__name__, okc,
-               "`%s`" % s if okc else "container rule `%s` does not require every part to be dumpable" % s,
-               ctx.loc(expr))
-    # last statement: return False
-    last = fd.node.body[-1]
-    okl = isinstance(last, ast.Return) and isinstance(last.value, ast.Constant) and last.value.value is False
+               "all(dumpable(item) for item in obj)" if okc else "a %s can be declared serializable without checking every item"
+               % ct.__name__, fd.loc)
+    if slice in keys:
+        okc = all(must_pass_positive(slice, "%s.%s" % (prm, fld)) for fld in ("start", "stop", "step"))
+        rep.ob("R04.1", "brine.dumpable: a slice is accepted only if all its parts are", okc,
+               "start, stop and step are each checked on every accepting path" if okc else
+               "a slice can be declared serializable without all three fields being checked", fd.loc)
+    kinds = verdicts[_Foreign][0]
+    okl = kinds == {"false"}
     rep.ob("R04.1", "brine.dumpable: everything else is refused", okl,
-           "falls through to `return False`" if okl else "dumpable() does not end in `return False`", ctx.loc(last), kind="site")
+           "for any other type only `return False` is reachable" if okl else "an unregistered type can be declared serializable",
+           fd.loc)
 
     # ------------------------------------------------------------------ R04.2
     f_dump = ctx.func(BR + "._dump")
@@ -377,7 +409,7 @@ def run(ctx, rep, model=None):
             raise AnalysisError("dumper %s has no emitting path" % fn.qual)
         seen_paths = set()
         for val in m.samples(t):
-            p = B.select_path(ctx, paths, val)
+            p = B.select_path(ctx, paths, val, A.params(fn.node)[0])
             rows += 1
             pid = id(p)
             # R04.5 for this valuation
